@@ -174,12 +174,35 @@ Theorem mem_create_then_has st s c :
   let st1 := fst (mstep st (MCreate s)) in
   snd (mstep st (MCreate s)) = MRKey (HK c) /\
   snd (mstep st1 (MHas (HK c))) = MRBool true /\
-  exists c', snd (mstep st1 (MOpen (HK c))) = MRBytes c'.
+  snd (mstep st1 (MOpen (HK c))) = MRBytes c.
 Proof.
   intros Hd. cbn [mem_step]. rewrite Hd.
   unfold alloc, do_put, get_slice. cbn [fst snd blobs heap].
   rewrite lookup_key_cons_same. cbn. rewrite Nat.eqb_refl.
-  split; [reflexivity|split; [reflexivity|]]. exists c. reflexivity.
+  split; [reflexivity|split; reflexivity].
+Qed.
+
+(** CreateJSON then ReadJSON gives the value back, and whatever ReadJSON
+    decodes was decoded from bytes that hash to the key. *)
+Theorem mem_json_roundtrip {V} (enc : V -> option bytes) (dec : bytes -> option V) st v bs :
+  enc v = Some bs -> dec bs = Some v ->
+  snd (create_json D true true V enc st v) = MRKey (HK bs) /\
+  read_json D true true V dec (fst (create_json D true true V enc st v)) (HK bs) = JVal V v.
+Proof.
+  intros He Hd. unfold create_json, read_json. rewrite He.
+  destruct (mem_create_then_has st [(bs, REof)] bs eq_refl) as (H1 & _ & H3).
+  split; [exact H1|]. rewrite H3, Hd. reflexivity.
+Qed.
+
+Theorem mem_read_json_from_matching_bytes {V} (dec : bytes -> option V) st k v :
+  mem_ok st ->
+  read_json D true true V dec st k = JVal V v ->
+  exists c, HK c = k /\ dec c = Some v.
+Proof.
+  intros Hok. unfold read_json. pose proof (mem_step_sound st (MOpen k) Hok) as Hs.
+  destruct (snd (mstep st (MOpen k))) as [| | |c| | |]; try discriminate.
+  cbn [res_sound] in Hs. destruct (dec c) as [v'|] eqn:Ed; [|discriminate].
+  intros [= <-]. eauto.
 Qed.
 
 (** Any sequence of operations (any interleaving of any number of clients,
